@@ -377,8 +377,14 @@ class World:
             else:
                 try:
                     self.release(conn.close)
-                finally:
+                except BaseException:
+                    # close() itself failed (injected fault): the application drops the Connection and the garbage
+                    # collector returns the pooled connection -- one of the statement's release paths
                     del conn
+                    gc.collect()
+                    raise
+                finally:
+                    conn = None
 
 
 # --------------------------------------------------------------------- enumeration
@@ -489,8 +495,8 @@ def run_shard(shard, tier, rec):
                     # one fault at every driver call made while a program releases its connection
                     led = w.led
                     for i, (start, rel, end) in enumerate(w.slices):
-                        if rel is None:
-                            continue
+                        if rel is None or progs[i] == "detach":
+                            continue  # a detached connection does not return to the pool (its failing reset: C26)
                         for c in led.log[rel:end]:
                             # (the PRAGMA cursor/execute calls of the characteristics reset are not faulted here: an error
                             # there escapes _ConnectionRecord.checkin and loses the pool slot -- C26's open finding "an error
